@@ -62,6 +62,51 @@ DESC = {
               'rule A active alone, then rule B becomes applicable too'),
     'C14-2': ('Solver skips apply_rules() while the powertrain is flagged locked',
               'self-locking worm drive held by ConstantPWM(0); afterwards no rule applies (default 1 expected)'),
+    'C15-1': ('ConstantPWM latches "window elapsed" and never proposes again', 'run past the window, reset, rerun with the same rule object'),
+    'C15-2': ('StartLimitCurrent returns i_lim/i_max for non-positive speed ratios', 'motor back-driven (negative speed) while the rule is in force'),
+    'C16-1': ('stop condition not evaluated while the powertrain is locked', 'self-locking drive; condition first true at a held instant'),
+    'C16-2': ('StopCondition.check_condition latches True', 'the same StopCondition reused after it triggered (run, reset, rerun)'),
+    'C17-1': ('Powertrain.reset clears with dict.fromkeys(keys, []): one shared list', 'run, reset, run again'),
+    'C17-2': ('worm wheel bending-stress key dropped once at mating time, only when the wheel is the slave',
+              'wheel with module + face width DRIVING a worm without reference diameter'),
+    'C18-1': ('snapshot locates the neighbouring samples assuming a uniform time step', 'run continued with another time step; snapshot in the continued part'),
+    'C18-2': ('exporter converts driving / load torque with torque_unit but labels them with their own units',
+              'driving_torque_unit or load_torque_unit different from torque_unit'),
+    'C19-1': ('TimeInterval.to converts (mutating) before the positivity check', 'subnormal value, larger target unit, in place; look at the object after the refused call'),
+    'C19-2': ('maximum helix angle row found with searchsorted on the converted degree value',
+              '14.5 deg pressure angle written in rad / arcsec / rot with a helix in (16, 25] deg'),
+    'C20-1': ('Powertrain.self_locking recomputed on every read', 're-mate the worm pair with another friction coefficient after the powertrain is built'),
+    'C20-2': ('duplicate-name check groups only consecutive equal names', 'duplicate names on non-adjacent elements (chain of >= 3)'),
+    # ---- second round (different mechanisms, asked to be harder to notice)
+    'C01-3': ('a locking powertrain zeroes only the last element\'s speed', 'the instant the lock engages while the drive is moving'),
+    'C01-4': ('master_gear_ratio defaults to 1.0 and add_fixed_joint no longer sets it', 'a gear once mated, later re-declared as the slave of a fixed joint'),
+    'C02-3': ('load torque computed before the self-locking check / clamp', 'self-locking drive, speed-dependent load, the instant the lock engages while moving'),
+    'C02-4': ('duty-cycle scaling of the motor torque uses raw current .value numbers', 'no-load and maximum current in different units, duty cycle strictly between cut-off and 1'),
+    'C03-3': ('last step of a run integrates with the remainder when T is not a multiple of dt', 'simulation_time / time_discretization not an integer'),
+    'C03-4': ('a continued run re-evaluates torques and acceleration at the seam without recording them',
+              'something that affects the torques changes between two run calls (another motor_control)'),
+    'C04-3': ('driving torque passes worm matings with 1/efficiency while the motor brakes', 'non-self-locking worm pair and rotor beyond the no-load speed'),
+    'C04-4': ('continued run starts from a solver-private planned end instead of the last recorded instant', 'first run stopped early by a stop condition, then continued'),
+    'C05-3': ('Time.to caches conversion factors per target unit, not cleared by in-place conversion', 'convert to U, convert in place to V, convert to U again'),
+    'C05-4': ('strict ordering rewritten as a > b*(1+tol): tolerance band on the wrong side for negatives', 'negative operands of equal magnitude in different units, < or >'),
+    'C06-3': ('Length.to memoises and hands back the cached object', 'r = d.to(m); r.to(cm, inplace=True); arithmetic that converts d to metres again'),
+    'C06-4': ('deg/h factor rewritten as pi/180/360', 'an operand in deg/h combined with another unit or a Time'),
+    'C07-3': ('Timer.is_active compares a plain float ratio (tolerance lost)', 'time step and timer duration in different units, window ending exactly on an instant'),
+    'C07-4': ('worm table rows looked up by the exact float of the pressure angle in degrees', '14.5 or 30 deg pressure angle written in rad / arcmin / arcsec / rot'),
+    'C08-3': ('current law reuses the duty-scaled maximum torque stored by the last compute_torque', 'compute_torque at one duty cycle, change pwm, set driving_torque, compute_electric_current'),
+    'C08-4': ('motor control applied at the end of the solver step', 'any controlled run in which the commanded duty cycle changes'),
+    'C09-3': ('worm wheel bending uses the wheel\'s own helix angle when the wheel is the master', 'wheel driving a worm whose helix angle differs'),
+    'C09-4': ('helical contact stress asks the mate\'s contact_stress_is_computable flag', 'mate with module and modulus but no face width'),
+    'C10-3': ('self-locking flag computed as f / tan(beta) > cos(alpha)', 'friction coefficient EXACTLY on the documented threshold (differs by rounding only)'),
+    'C10-4': ('spur gear treated as a helical gear with a 0 deg helix', 'helical gear with helix exactly 0 mated with a spur gear'),
+    'C12-3': ('reset restores the duty cycle only for motors with current data', 'motor without current data, schedule ending with pwm = 0, reset, rerun'),
+    'C12-4': ('Timer.is_active latches "elapsed"', 'window ends before the run ends; reset; rerun with the same control objects'),
+    'C13-3': ('lock release keyed on the sign of the driving torque instead of the duty cycle', 'motor without current data and a negative duty cycle'),
+    'C13-4': ('self_locking flag only ever set to True on a re-mated worm (default False)', 'the same worm mated repeatedly with decreasing friction across the limit'),
+    'C17-3': ('a locked powertrain zeroes the acceleration of the last element only', 'self-locking drive already locked at t = 0'),
+    'C17-4': ('a continuation in another unit appends the converted junction instant to Powertrain.time', 'continue with dt written in another time unit'),
+    'C18-3': ('exporter skips the conversion when the first sample is already in the requested unit', 'load function returning torques in different units at different instants'),
+    'C18-4': ('snapshot caches the time axis, rebuilt only when the number of instants changes', 'run, snapshot, reset, rerun with another step but the same number of instants, snapshot'),
 }
 
 
